@@ -278,7 +278,7 @@ Add Field FFm0 : (fth (O:=OF)).
 Notation value := (@value F).
 Notation store := (@store F).
 Notation exec := (@exec F OF feq stop).
-Ltac ev := cbn [LoopIR.exec eval get set nth bind try asZ asArr asF ok err fst snd arith arithZ fop compare cmpZ eqne truthy eval_list].
+Ltac ev := cbn [LoopIR.exec eval get set nth bind try asZ asArr asF ok err fst snd arith arithZ fop compare cmpF cmpZ eqne truthy eval_list].
 
 Lemma xseq a b (st st' : store) : exec a st = (st', CNormal) -> exec (SSeq a b) st = exec b st'.
 Proof. intros E. cbn [LoopIR.exec]. rewrite E. reflexivity. Qed.
